@@ -140,9 +140,9 @@ def body(ctx):
     try:
         import json as _json
         boundary = sorted(_json.load(open(os.path.join(os.path.dirname(os.path.dirname(os.path.abspath(__file__))), 'data', 'boundary_keys.json'))).items())
-        ctx.extra['boundary_keys'] = {k: dict(rr_bits=v['rr_bits'], n0inv=hex(v['n0inv'])) for k, v in boundary}
+        ctx.extra['boundary_keys'] = {k: dict(rr_bits=v['rr_bits'], n0inv=hex(v['n0inv']), e=v.get('e', 65537)) for k, v in boundary}
         for ki in range(nkeys + len(boundary)):
-            path = os.path.join(tmp, 'key%d' % ki)
+            path = os.path.join(tmp, ('key%d', 'adbkey%d.tv', 'my.key%d.pem')[ki % 3] % ki)      # key file names with dots in them: the public key is always <name>.pub
             if ki < nkeys:
                 keygen.keygen(path)
             else:
@@ -153,6 +153,10 @@ def body(ctx):
                 keygen.write_public_keyfile(path, path + '.pub')
             n, e = rsaproj.public_numbers_of_pem(path)
             # the public key file written by keygen
+            if not os.path.exists(path + '.pub'):
+                # keygen(<name>) documents <name>.pub, and that is where the signer classes look for it
+                ctx.violation('C17.PubFileSound', dict(kind='keygen', key=ki, file=os.path.basename(path), why='no public key file at <name>.pub', directory=sorted(os.listdir(tmp))))
+                continue
             pub = open(path + '.pub', 'rb').read()
             d = rsaproj.decode_blob(pub)
             ctx.count(evaluations=1)
